@@ -204,3 +204,83 @@ Proof.
     eexists. split; [exact Hdec|]. split; [reflexivity|]. split; [reflexivity|].
     cbn [spec_wf] in Hwf. split_andb Hwf. now apply attrs_rwm.
 Qed.
+
+(* ================================================================== B. the response object *)
+
+Lemma abs_intro o m : abs_raw o = Some m -> spec_wf m = true -> CorrPdu.abs o = Some m.
+Proof. intros H1 H2. unfold CorrPdu.abs. now rewrite H1, H2. Qed.
+
+Definition exc_code_of (ro : obj) : option Z := match ro with OExc _ _ c => Some c | _ => None end.
+Definition sexc_code (s : srsp) : option Z := match s with SExc _ c => Some c | _ => None end.
+
+Ltac cls_case cls name E :=
+  destruct (String.eqb cls name) eqn:E; [apply String.eqb_eq in E; subst cls | ].
+
+Ltac args_shapes args H :=
+  destruct args as [|[?z|?l] [|[?z|?l] [|[?z|?l] [|? ?]]]]; cbn in H; try discriminate H; injection H as <-.
+
+Ltac close_rsp Hwf :=
+  eexists; split; [reflexivity|]; split; [apply abs_intro; [reflexivity|exact Hwf]|]; split; reflexivity.
+
+Theorem response_object o s :
+  view GenExec.code o = Some s -> spec_wf (spec_response_msg s) = true ->
+  exists ro, obj_of_rsp o = Some ro /\ CorrPdu.abs ro = Some (spec_response_msg s) /\
+             mem_cls (class_of ro) conforming_encode = true /\ exc_code_of ro = sexc_code s.
+Proof.
+  intros H Hwf. destruct o as [cls args|fc code].
+  2: { cbn in H. injection H as <-. eexists. split; [reflexivity|]. split; [|split; reflexivity].
+       apply abs_intro; [|exact Hwf]. cbn [abs_raw spec_response_msg].
+       replace (fc =? fc - 128 + 128) with true by lia. reflexivity. }
+  cls_case cls "ReadCoilsResponse" E1. { args_shapes args H. close_rsp Hwf. }
+  cls_case cls "ReadDiscreteInputsResponse" E2. { args_shapes args H. close_rsp Hwf. }
+  cls_case cls "ReadHoldingRegistersResponse" E3. { args_shapes args H. close_rsp Hwf. }
+  cls_case cls "ReadInputRegistersResponse" E4. { args_shapes args H. close_rsp Hwf. }
+  cls_case cls "ReadWriteMultipleRegistersResponse" E5. { args_shapes args H. close_rsp Hwf. }
+  cls_case cls "WriteSingleCoilResponse" E6. { args_shapes args H. close_rsp Hwf. }
+  cls_case cls "WriteSingleRegisterResponse" E7. { args_shapes args H. close_rsp Hwf. }
+  cls_case cls "WriteMultipleCoilsResponse" E8. { args_shapes args H. close_rsp Hwf. }
+  cls_case cls "WriteMultipleRegistersResponse" E9. { args_shapes args H. close_rsp Hwf. }
+  cls_case cls "MaskWriteRegisterResponse" E10. { args_shapes args H. close_rsp Hwf. }
+  exfalso. unfold view in H. cbn [x_resp_fc GenExec.code Store.assoc_str] in H.
+  rewrite !(String.eqb_sym _ cls), E1, E2, E3, E4, E5, E6, E7, E8, E9, E10 in H. discriminate H.
+Qed.
+
+(* ================================================================== C. the response packet *)
+
+Lemma words_length rs : length (words rs) = (2 * length rs)%nat.
+Proof. induction rs as [|v t IH]; [reflexivity|]. unfold words in *. cbn [flat_map]. rewrite app_length, IH. cbn [u16 length]. lia. Qed.
+
+Lemma response_pdu_length s : spec_wf (spec_response_msg s) = true ->
+  (length (spec_pdu (spec_response_msg s)) <= 300)%nat.
+Proof.
+  intros Hwf. destruct s as [fc vals|fc a v|fc a q|a am om|fc code]; cbn [spec_response_msg] in *.
+  - assert (Hbits : forall cs, is_u8 (bit_byte_count (len cs)) = true ->
+                      (length ([1%N] ++ u8 (bit_byte_count (len cs)) ++ spec_pack_bits cs) <= 300)%nat).
+    { intros cs Hc. destruct (C01.C01_bitpack_shape cs) as (_ & Hl & _).
+      rewrite !app_length. cbn [length u8]. unfold is_u8 in Hc. unfold len in Hc. lia. }
+    assert (Hregs : forall rs, is_u8 (2 * len rs) && all_u16 rs = true ->
+                      (length ([1%N] ++ u8 (2 * len rs) ++ words rs) <= 300)%nat).
+    { intros rs Hc. apply andb_true_iff in Hc as [Hc _]. rewrite !app_length, words_length. cbn [length u8].
+      unfold is_u8, len in Hc. lia. }
+    destruct (fc =? 1); [exact (Hbits _ Hwf)|]. destruct (fc =? 2); [exact (Hbits _ Hwf)|].
+    destruct (fc =? 3); [exact (Hregs _ Hwf)|]. destruct (fc =? 4); [exact (Hregs _ Hwf)|]. exact (Hregs _ Hwf).
+  - destruct (fc =? 5); cbn [spec_pdu]; rewrite ?app_length; cbn; try destruct (coil_on v); cbn; lia.
+  - destruct (fc =? 15); cbn [spec_pdu]; rewrite ?app_length; cbn; lia.
+  - cbn [spec_pdu]; rewrite ?app_length; cbn; lia.
+  - cbn. lia.
+Qed.
+
+Theorem packet_spec o ro m :
+  CorrPdu.abs ro = Some m -> mem_cls (class_of ro) conforming_encode = true ->
+  0 <= o_tid o < 65536 -> 0 <= o_uid o < 256 -> (length (spec_pdu m) <= 300)%nat ->
+  packet_of o ro = Ok (spec_adu_tcp (o_tid o) 0 (o_uid o) (spec_pdu m)).
+Proof.
+  intros Habs Hc Ht Hu Hl.
+  pose proof (C01.C01_encode_conforms ro m Hc Habs) as Hp.
+  unfold py_pdu in Hp. unfold packet_of.
+  destruct (obj_fc ro) as [fc|e]; cbn [bind] in *; [|discriminate Hp].
+  unfold fc_byte in Hp. destruct ((0 <=? fc) && (fc <? 256)) eqn:Efc; cbn [bind] in Hp; [|discriminate Hp].
+  destruct (py_encode ro) as [data|e]; cbn [bind] in *; [|discriminate Hp].
+  injection Hp as Hp. rewrite <- Hp in *. cbn [length app] in Hl.
+  unfold dflt_pid. rewrite C03_tcpascii.C03_build_tcp; [reflexivity| | | | |]; lia.
+Qed.
